@@ -221,7 +221,8 @@ def c06_jobs(tier):
             if tier == "quick" and qual == 0:
                 # three features: nested-then-overlapping layouts need a third interval
                 jobs.append({"pkgdir": P, "func": "VerifC06_Stitch", "params": {"n": n, "k": 3, "qual": 0}})
-            if tier == "thorough" or qual == 0:
+            # Compose with 3 features, or 4 letters with qualities, does not finish within 3000 s (measured)
+            if (tier == "thorough" and k == 2 and (n <= 3 or qual == 0)) or (tier == "quick" and qual == 0):
                 jobs.append({"pkgdir": P, "func": "VerifC06_Compose", "params": {"n": n, "k": k, "qual": qual}})
     return jobs
 
@@ -337,11 +338,11 @@ CHECKS["C19"] = {
     "jobs": c19_jobs,
     "functions": ["concurrent.{NewPromise,(*Promise).Fulfill,fulfill,Fail,fail,Wait,messageState}", "concurrent.{NewProcessor and its worker closure,Process,Result,Close,Stop,Wait,Working}", "concurrent.Map and its producer closure",
                   "channels, select, sync.Mutex, sync.WaitGroup, recover: interpreted by the engine's baton scheduler"],
-    "level_text": "bounded schedule exploration by symbolic execution: every interleaving of the goroutines' synchronisation steps (channel operations, mutex operations, len(chan), go, goroutine exit) with at most p pre-emptions is explored for the stated workloads; data (values, failure flags, promise flags) are symbolic and decided by z3; deadlock = no runnable goroutine while main is blocked; a panic escaping a goroutine (double close) is a crash",
-    "technique": "bounded symbolic execution of Go SSA with a symbolic scheduler (pre-emption bounded) + SMT (z3); schedule dimension case-split by the engine",
+    "level_text": "bounded schedule exploration by symbolic execution: every interleaving of the goroutines' synchronisation steps (channel operations, mutex operations, len(chan), go, goroutine exit) with at most p pre-emptions is explored for the stated workloads; data (values, failure flags, promise flags) are symbolic and decided by z3; deadlock = no runnable goroutine while main is blocked; a panic escaping a goroutine (double close, send on closed channel) is a crash; plain memory accesses (pointer loads/stores, slice elements, append/copy, map operations) are checked by a vector-clock happens-before detector",
+    "technique": "bounded symbolic execution of Go SSA with a symbolic scheduler (pre-emption bounded) and a vector-clock happens-before race detector + SMT (z3); schedule dimension case-split by the engine",
     "explanation": "schedule-dependent counterexamples (deadlock, crash, wrong count) are reported with the schedule found; they are not replayed natively (no gate harness was built), only data-dependent witnesses are",
     "assumptions": ["the engine's model of Go channels, select, sync.Mutex and sync.WaitGroup is faithful; scheduling points: before and after channel operations, at mutex operations, len(chan), go statements, goroutine exit", "GOMAXPROCS = 4"],
-    "outside": "more goroutines / operations / pre-emptions than stated; unbounded schedules; data races on plain memory (no happens-before detector was built); operations that panic followed by further operations",
+    "outside": "more goroutines / operations / pre-emptions than stated; unbounded schedules; data races that the detector's extra ordering edges hide (a receive-release is acquired by every later send, atomics order everything); operations that panic followed by further operations",
 }
 
 
@@ -363,7 +364,7 @@ CHECKS["C12"] = {
     "technique": CHECKS["C19"]["technique"],
     "assumptions": ["engine model of channels/mutexes/goroutines; scheduling points also at every model Encode and Sync (the writer's per-element steps)", "temp files and gob modelled as perfect storage"],
     "explanation": "workloads of 1-2 full chunks plus a short or empty last chunk; every interleaving of the caller with the background writers within the pre-emption bound; data symbolic; oracle = complete sorted multiset after Finalise; deadlock and crash detection by the engine. Schedule-dependent counterexamples are not replayed natively",
-    "outside": "data races on plain memory (no happens-before detector), more chunks / pre-emptions than stated",
+    "outside": "more chunks / pre-emptions than stated; data races hidden by the detector's extra ordering edges",
 }
 
 
@@ -509,7 +510,7 @@ def c14_jobs(tier):
     jobs = []
     # (k, n, e, offset, |T|, |Q|, self). The first three are the smallest shapes on which the three
     # defects repaired in /repo (known_findings.txt, fixed: C14) were found by this check.
-    shapes = [(1, 1, 0, 2, 2, 3, 0), (1, 2, 1, 3, 2, 5, 0), (3, 3, 0, 1, 4, 5, 0), (1, 2, 1, 1, 3, 4, 1),
+    shapes = [(1, 1, 0, 2, 2, 3, 0), (1, 2, 1, 3, 2, 5, 0), (3, 3, 0, 1, 4, 5, 0), (1, 2, 1, 1, 3, 4, 1), (1, 1, 0, 1, 2, 4, 0),
               (2, 3, 0, 2, 3, 5, 0), (2, 3, 0, 1, 4, 4, 0), (2, 3, 0, 1, 4, 4, 1)]
     if tier != "quick":
         shapes += [(1, 2, 0, 2, 3, 4, 0), (1, 3, 1, 2, 3, 5, 0), (1, 2, 1, 2, 3, 5, 1), (1, 3, 2, 2, 3, 5, 0),
@@ -525,5 +526,6 @@ CHECKS["C14"] = {
     "jobs": c14_jobs,
     "functions": ["filter.{New,(*Filter).Filter,commonKmer,hitTube,tubeEnd,tubeFlush,addHit,diagIndex,tubeIndex,MinWordsPerFilterHit}", "kmerindex (as C10)", "morass in-memory path"],
     "explanation": "tiny bounds: both sequences symbolic over {a,c,g,t}; every pair of length-n windows with at most e substitutions must be covered by a reported hit (query interval overlaps, diagonal band contains the match diagonal, read as the consumer MergeFilterHit reads it)",
+    "level_note": "trusted: gosym's Go SSA semantics (validated each run by native replay of solver witnesses), z3 4.8.12 (sampled queries re-decided by z3 5.1 and cvc5), the harness's brute-force list of epsilon-matches and its reading of a hit's diagonal band (as Merger.MergeFilterHit reads it); the claim covers only the listed concrete shapes with symbolic letters",
     "outside": "every shape (k, n, e, offset, |T|, |Q|) other than the listed ones: the shapes are concrete, only the letters are symbolic; k <= 3, |T| <= 5, |Q| <= 5; complement-strand mode",
 }
